@@ -1791,6 +1791,7 @@ demux_ts_packet			(vbi_dvb_demux *	dx,
 	unsigned int avail;
 	unsigned int lookahead;
 	const uint8_t *p;
+	vbi_bool pes_packet_done = FALSE;
 	int err = 0;
 
 	s = *src;
@@ -1810,7 +1811,9 @@ demux_ts_packet			(vbi_dvb_demux *	dx,
 
 		consume = dx->ts_wrap.consume;
 
-		if (consume > 0) {
+		if (consume > 0 || pes_packet_done) {
+			pes_packet_done = FALSE;
+
 			/* Copy TS payload into dx->pes_buffer. */
 
 			if (consume > s_left) {
@@ -2204,6 +2207,12 @@ demux_ts_packet			(vbi_dvb_demux *	dx,
 			dx->ts_wrap.lookahead =
 				TS_HEADER_LOOKAHEAD - lookahead;
 		}
+
+		/* A PES packet which fits into one TS packet may be
+		   complete already (possible after resynchronization,
+		   when we have the whole TS packet in ts_buffer). */
+		pes_packet_done = (0 == dx->ts_wrap.consume
+				   && 0 == dx->ts_pes_todo);
 
 		continue;
 
